@@ -221,6 +221,19 @@ fn order_ok(e: &Edge, got: &[u32], cache: &mut Option<LocIndex>) -> Result<Resul
                     }
                 }
             }
+            // the property fixes what RFC 9535 leaves open: object members are visited in the document's own member
+            // order, i.e. the visited nodes appear in document pre-order (node ids are pre-order numbers)
+            let idx = cache.get_or_insert_with(|| LocIndex::new(e.am));
+            let pid: Vec<u32> = parents.iter().map(|p| *idx.ids.get(p).expect("visited node is a document node")).collect();
+            for w in 0..pid.len().saturating_sub(1) {
+                if pid[w] >= pid[w + 1] {
+                    return Ok(Err(format!(
+                        "descendant visiting order: {} comes before {} in the document's member order and must be visited first",
+                        normpath(&parents[w + 1]),
+                        normpath(&parents[w])
+                    )));
+                }
+            }
             pos += total;
         }
     }
@@ -742,7 +755,7 @@ pub fn run(prop: &str, tier: &str) -> i32 {
         &[
             "reference model in mc/src/model (validated against the RFC 9535 worked examples by `jpmc selftest`)",
             "object member order = insertion order (serde_json preserve_order)",
-            "descendant visiting order: every linear extension of the RFC 2.5.2.2 partial order is accepted",
+            "descendant visiting order: the linear extension of the RFC 2.5.2.2 partial order in which object members are visited in the document's own member order (the property fixes what the RFC leaves open)",
             "states whose nodelist exceeds Lmax are checked but not expanded (counter truncated_states)",
         ],
         true,
